@@ -187,6 +187,7 @@ type actor struct {
 	inject  string
 
 	pendingList *simapi.Event
+	copy        *unstructured.Unstructured // the Usage as this reconciler last read or wrote it
 }
 
 type sweep struct {
@@ -649,9 +650,10 @@ func (w *world) classify(cl *simapi.Call) string {
 		case cl.Verb == "list":
 			return "list:usages"
 		case cl.Verb == "update" && cl.Sub == "" && cl.Obj != nil:
-			cur := w.s.Peek(cl.Key)
-			if cur == nil {
-				cur = &unstructured.Unstructured{Object: map[string]any{}}
+			// what this write changes relative to the reconciler's own copy of the Usage
+			cur := &unstructured.Unstructured{Object: map[string]any{}}
+			if a := w.byActor[cl.Actor]; a != nil && a.copy != nil {
+				cur = a.copy
 			}
 			nf, cf := has(cl.Obj.GetFinalizers(), usageFinalizer), has(cur.GetFinalizers(), usageFinalizer)
 			switch {
@@ -732,6 +734,14 @@ func (w *world) onEvent(e *simapi.Event) {
 }
 
 func (w *world) emitCall(a *actor, e *simapi.Event, abs string, listed []any) {
+	if e.Kind == v1beta1.UsageKind && e.Outcome == "ok" {
+		switch {
+		case e.Verb == "get":
+			a.copy = w.s.Peek(usageKey(a.name))
+		case e.PostObj != nil:
+			a.copy = e.PostObj
+		}
+	}
 	if abs == "get:usage" && e.Outcome == "ok" {
 		a.branch = "normal"
 		if o := w.s.Peek(usageKey(a.name)); o != nil && o.GetDeletionTimestamp() != nil {
